@@ -7,6 +7,425 @@ import Sc3Verif.C17.GenActions
 import Sc3Verif.C16.Props
 namespace Sc3Verif.C17
 
+/-! ## conformance to the Server Command Reference -/
+
+/-- EVERY message a client call emits conforms to the command reference (name, argument count,
+    order, types, array brackets, counted groups, completion slot), for every state and every
+    well-kinded argument list — values nested to any depth, any ids, any targets. -/
+theorem emitted_conforms (c : Core) (op : Op) (hw : op.wf c = true) :
+    ∀ p ∈ (c.stepCore op).2.2, ∀ m ∈ p.msgs, grammarOk m = true := by
+  intro p hp m hm
+  cases op with
+  | synth paused name tgt act args =>
+    simp only [Op.wf, Bool.and_eq_true] at hw
+    simp only [Core.stepCore] at hp
+    split at hp
+    · rename_i tid _ a _ hsa
+      have hpa := synthArgs_ok hw.2 hsa
+      have hact := actOk_arg hw.1
+      split at hp
+      · simp only [List.mem_singleton] at hp; subst hp
+        simp only [Packet.msgs, List.mem_cons, List.not_mem_nil, or_false] at hm
+        rcases hm with rfl | rfl
+        · simp [grammarOk, Arg.isStr, Arg.isInt, hact, hpa, as, ai]
+        · simp [grammarOk, rep2, Arg.isInt, Arg.isFlag, ai]
+      · simp only [List.mem_singleton] at hp; subst hp
+        simp only [Packet.msgs, List.mem_singleton] at hm; subst hm
+        simp [grammarOk, Arg.isStr, Arg.isInt, hact, hpa, as, ai]
+    · simp [Core.skip] at hp
+  | grain name tgt act args =>
+    simp only [Op.wf, Bool.and_eq_true] at hw
+    simp only [Core.stepCore] at hp
+    split at hp
+    · rename_i tid _ a _ hsa
+      have := send_msg hp hm; subst this
+      simp [grammarOk, Arg.isStr, Arg.isInt, actOk_arg hw.1, synthArgs_ok hw.2 hsa, as, ai]
+    · simp [Core.skip] at hp
+  | replace t name args same =>
+    simp only [Op.wf] at hw
+    simp only [Core.stepCore] at hp
+    split at hp
+    · rename_i tn a _ hsa
+      simp only [List.mem_singleton] at hp; subst hp
+      simp only [Packet.msgs, List.mem_singleton] at hm; subst hm
+      simp [grammarOk, Arg.isStr, Arg.isInt, synthArgs_ok hw hsa, as, ai, Arg.isAddAction, actionIn]
+    · simp [Core.skip] at hp
+  | group par tgt act =>
+    simp only [Op.wf] at hw
+    simp only [Core.stepCore] at hp
+    split at hp
+    · simp only [List.mem_singleton] at hp; subst hp
+      simp only [Packet.msgs, List.mem_singleton] at hm; subst hm
+      have := actOk_arg hw
+      cases par <;> simp [grammarOk, rep3, Arg.isInt, this, ai]
+    · simp [Core.skip] at hp
+  | nfree h flag =>
+    simp only [Core.stepCore] at hp
+    split at hp
+    · split at hp
+      · have := send_msg hp hm; subst this
+        simp [grammarOk, rep1, Arg.isInt, ai]
+      · simp at hp
+    · simp [Core.skip] at hp
+  | run h flag =>
+    obtain ⟨n, a, ha, rfl⟩ := nodeCmd_msg hp hm
+    simp only [Option.some.injEq] at ha; subst ha
+    simp [grammarOk, rep2, Arg.isInt, boolArg_flag, ai]
+  | gdump h flag =>
+    obtain ⟨n, a, ha, rfl⟩ := kindCmd_msg hp hm
+    simp only [Option.some.injEq] at ha; subst ha
+    simp [grammarOk, rep2, Arg.isInt, boolArg_flag, ai]
+  | map audio h args =>
+    simp only [Op.wf] at hw
+    obtain ⟨n, a, ha, rfl⟩ := nodeCmd_msg hp hm
+    have := rep2_of_vrep2 (c := c) (fun v a hv h => atomArg_ctlLike hv h)
+      (fun v a hv h => atomArg_intLike hv h) args a hw ha
+    cases audio <;> simp [grammarOk, Arg.isInt, this, ai]
+  | mapn audio h args =>
+    simp only [Op.wf] at hw
+    obtain ⟨n, a, ha, rfl⟩ := nodeCmd_msg hp hm
+    have := mnArgs_ok c args a hw ha
+    cases audio <;> simp [grammarOk, Arg.isInt, this, ai]
+  | set h args =>
+    simp only [Op.wf] at hw
+    obtain ⟨n, a, ha, rfl⟩ := nodeCmd_msg hp hm
+    have := embedL_pairs c args a hw (by simpa [oscArgList] using ha)
+    simp [grammarOk, Arg.isInt, this, ai]
+  | setn h args =>
+    simp only [Op.wf] at hw
+    obtain ⟨n, a, ha, rfl⟩ := nodeCmd_msg hp hm
+    have := setnArgs_ok c Val.isCtlLike Arg.isCtl (fun v a hv h => atomArg_ctlLike hv h) args a hw ha
+    simp [grammarOk, Arg.isInt, this, ai]
+  | fill h args =>
+    simp only [Op.wf] at hw
+    obtain ⟨n, a, ha, rfl⟩ := nodeCmd_msg hp hm
+    have := rep3_of_vrep3 (c := c) (fun v a hv h => atomArg_ctlLike hv h)
+      (fun v a hv h => atomArg_intLike hv h) (fun v a hv h => atomArg_numLike hv h) args a hw ha
+    simp [grammarOk, Arg.isInt, this, ai]
+  | release h time =>
+    simp only [Core.stepCore] at hp
+    split at hp
+    · rename_i n g _ hg
+      simp only [List.mem_singleton] at hp; subst hp
+      simp only [Packet.msgs, List.mem_singleton] at hm; subst hm
+      simp [grammarOk, Arg.isInt, pairsOk, Arg.isCtl, releaseGate_num hg, as, ai]
+    · simp [Core.skip] at hp
+  | trace h =>
+    obtain ⟨n, a, ha, rfl⟩ := nodeCmd_msg hp hm
+    simp only [Option.some.injEq] at ha; subst ha
+    simp [grammarOk, rep1, Arg.isInt, ai]
+  | nquery h =>
+    obtain ⟨n, a, ha, rfl⟩ := nodeCmd_msg hp hm
+    simp only [Option.some.injEq] at ha; subst ha
+    simp [grammarOk, rep1, Arg.isInt, ai]
+  | gfreeall h =>
+    obtain ⟨n, a, ha, rfl⟩ := kindCmd_msg hp hm
+    simp only [Option.some.injEq] at ha; subst ha
+    simp [grammarOk, rep1, Arg.isInt, ai]
+  | gdeep h =>
+    obtain ⟨n, a, ha, rfl⟩ := kindCmd_msg hp hm
+    simp only [Option.some.injEq] at ha; subst ha
+    simp [grammarOk, rep1, Arg.isInt, ai]
+  | movb h t =>
+    simp only [Core.stepCore] at hp
+    split at hp
+    · have := send_msg hp hm; subst this
+      simp [grammarOk, rep2, Arg.isInt]
+    · simp [Core.skip] at hp
+  | mova h t =>
+    simp only [Core.stepCore] at hp
+    split at hp
+    · have := send_msg hp hm; subst this
+      simp [grammarOk, rep2, Arg.isInt]
+    · simp [Core.skip] at hp
+  | movh h tgt =>
+    simp only [Core.stepCore] at hp
+    split at hp
+    · split at hp
+      · have := send_msg hp hm; subst this
+        simp [grammarOk, rep2, Arg.isInt]
+      · simp [Core.exc] at hp
+    · simp [Core.skip] at hp
+  | movt h tgt =>
+    simp only [Core.stepCore] at hp
+    split at hp
+    · split at hp
+      · have := send_msg hp hm; subst this
+        simp [grammarOk, rep2, Arg.isInt]
+      · simp [Core.exc] at hp
+    · simp [Core.skip] at hp
+  | sget h idx =>
+    simp only [Op.wf] at hw
+    obtain ⟨n, a, ha, rfl⟩ := kindCmd_msg hp hm
+    simp only [bind, Option.bind] at ha
+    cases hx : atomArg c idx with
+    | none => simp [hx] at ha
+    | some x =>
+      simp only [hx, pure, Option.some.injEq] at ha; subst ha
+      simp [grammarOk, rep1, Arg.isInt, atomArg_ctlLike hw hx]
+  | sgetn h idx count =>
+    simp only [Op.wf, Bool.and_eq_true] at hw
+    obtain ⟨n, a, ha, rfl⟩ := kindCmd_msg hp hm
+    simp only [bind, Option.bind] at ha
+    cases hx : atomArg c idx with
+    | none => simp [hx] at ha
+    | some x =>
+      cases hy : atomArg c count with
+      | none => simp [hx, hy] at ha
+      | some y =>
+        simp only [hx, hy, pure, Option.some.injEq] at ha; subst ha
+        simp [grammarOk, rep2, ai_isInt, atomArg_ctlLike hw.1 hx, atomArg_intLike hw.2 hy]
+  | reorder act tgt nodes =>
+    simp only [Op.wf] at hw
+    simp only [Core.stepCore] at hp
+    split at hp
+    · rename_i tid _ ids _ _
+      have := send_msg hp hm; subst this
+      have hall : rep1 Arg.isInt (ids.map ai) = true :=
+        rep1_of_all _ (fun a ha => by
+          simp only [List.mem_map] at ha; obtain ⟨i, _, rfl⟩ := ha; rfl)
+      have : actionIn 0 3 (ai act) = true := by simpa [actionIn, ai] using hw
+      simp [grammarOk, Arg.isInt, this, hall]
+    · simp [Core.skip] at hp
+  | freedg all =>
+    simp only [Core.stepCore] at hp
+    split at hp
+    · simp only [List.mem_map, List.mem_range] at hp
+      obtain ⟨k, _, rfl⟩ := hp
+      simp only [Packet.msgs, List.mem_singleton] at hm; subst hm
+      simp [grammarOk, rep1, Arg.isInt]
+    · have := send_msg hp hm; subst this
+      simp [grammarOk, rep1, Arg.isInt]
+  | newBus audio ch idx =>
+    simp only [Core.stepCore] at hp
+    split at hp
+    · simp at hp
+    · split at hp <;> simp [Core.exc] at hp
+  | busfree h =>
+    simp only [Core.stepCore] at hp
+    split at hp
+    · simp [Core.skip] at hp
+    · split at hp
+      · simp at hp
+      · split at hp
+        · simp at hp
+        · split at hp <;> simp [Core.exc] at hp
+  | cset h vals =>
+    simp only [Op.wf] at hw
+    obtain ⟨i, ch, a, ha, rfl⟩ := cbusCmd_msg hp hm
+    have := indexed_ok a i (ctlInputs_nums vals a hw ha).2
+    simp [grammarOk, this]
+  | csetat h off vals =>
+    simp only [Op.wf] at hw
+    obtain ⟨i, ch, a, ha, rfl⟩ := cbusCmd_msg hp hm
+    have := indexed_ok a (i + off) (ctlInputs_nums vals a hw ha).2
+    simp [grammarOk, this]
+  | csetn h vals =>
+    simp only [Op.wf] at hw
+    obtain ⟨i, ch, a, ha, rfl⟩ := cbusCmd_msg hp hm
+    have hn := ctlInputs_nums vals a hw ha
+    have := counted_nums Arg.isInt a [] hn.2
+    simp only [List.append_nil] at this
+    simp [grammarOk, countedOk, Arg.isInt, ai, ← hn.1, this]
+  | csetnat h off vals =>
+    simp only [Op.wf] at hw
+    obtain ⟨i, ch, a, ha, rfl⟩ := cbusCmd_msg hp hm
+    have hn := ctlInputs_nums vals a hw ha
+    have := counted_nums Arg.isInt a [] hn.2
+    simp only [List.append_nil] at this
+    simp [grammarOk, countedOk, Arg.isInt, ai, ← hn.1, this]
+  | cpairs h pairs =>
+    simp only [Op.wf] at hw
+    obtain ⟨i, ch, a, ha, rfl⟩ := cbusCmd_msg hp hm
+    have := cpairs_ok c i pairs a hw ha
+    simp [grammarOk, this]
+  | cfill h value ch =>
+    simp only [Op.wf, Bool.and_eq_true] at hw
+    obtain ⟨i, ch', a, ha, rfl⟩ := cbusCmd_msg hp hm
+    simp only [bind, Option.bind] at ha
+    cases hx : atomArg c value with
+    | none => simp [hx] at ha
+    | some x =>
+      cases hy : atomArg c ch with
+      | none => simp [hx, hy] at ha
+      | some y =>
+        simp only [hx, hy, pure, Option.some.injEq] at ha; subst ha
+        simp [grammarOk, rep3, ai_isInt, atomArg_numLike hw.1 hx, atomArg_intLike hw.2 hy]
+  | cclear h =>
+    obtain ⟨i, ch, a, ha, rfl⟩ := cbusCmd_msg hp hm
+    simp [grammarOk, rep3, Arg.isInt, Arg.isNum]
+  | cget h =>
+    obtain ⟨i, ch, a, ha, rfl⟩ := cbusCmd_msg hp hm
+    split <;> simp [grammarOk, rep1, rep2, Arg.isInt]
+  | cgetn h count =>
+    obtain ⟨i, ch, a, ha, rfl⟩ := cbusCmd_msg hp hm
+    simp [grammarOk, rep2, Arg.isInt]
+  | buf frames ch num alloc cm =>
+    simp only [Core.stepCore] at hp
+    split at hp
+    · split at hp
+      · simp only [List.mem_singleton] at hp; subst hp
+        simp only [Packet.msgs, List.mem_singleton] at hm; subst hm
+        simp [grammarOk, ai_isInt, complTail_complArg]
+      · simp at hp
+    · split at hp
+      · split at hp
+        · simp only [List.mem_singleton] at hp; subst hp
+          simp only [Packet.msgs, List.mem_singleton] at hm; subst hm
+          simp [grammarOk, ai_isInt, complTail_complArg]
+        · simp at hp
+      · simp [Core.exc] at hp
+      · simp [Core.exc] at hp
+  | balloc h cm =>
+    simp only [Core.stepCore] at hp
+    split at hp
+    · simp [Core.skip] at hp
+    · split at hp
+      · rename_i bo hb _ i hi
+        have := send_msg hp hm; subst this
+        simp only [Op.wf, hb, hi, Option.isNone_some, Bool.false_or, Bool.and_eq_true] at hw
+        obtain ⟨f, hf⟩ := Option.isSome_iff_exists.mp hw.1
+        obtain ⟨ch, hch⟩ := Option.isSome_iff_exists.mp hw.2
+        simp [grammarOk, ai_isInt, complTail_complArg, hf, hch, optInt]
+      · simp [Core.exc] at hp
+  | bufcons n frames ch cm =>
+    simp only [Core.stepCore] at hp
+    split at hp
+    · simp only [List.mem_map] at hp
+      obtain ⟨b, _, rfl⟩ := hp
+      simp only [Packet.msgs, List.mem_singleton] at hm; subst hm
+      simp [grammarOk, ai_isInt, complTail_complArg]
+    · simp [Core.exc] at hp
+    · simp [Core.exc] at hp
+  | bfree h cm =>
+    simp only [Core.stepCore] at hp
+    split at hp
+    · simp [Core.skip] at hp
+    · split at hp
+      · simp at hp
+      · split at hp
+        · simp [Core.exc] at hp
+        · simp only [List.mem_singleton] at hp; subst hp
+          simp only [Packet.msgs, List.mem_singleton] at hm; subst hm
+          simp [grammarOk, ai_isInt, complTail_complArg]
+  | bfreeall =>
+    simp only [Core.stepCore, List.mem_singleton] at hp; subst hp
+    simp only [Packet.msgs, List.mem_map] at hm
+    obtain ⟨i, _, rfl⟩ := hm
+    simp [grammarOk, complTail, ai_isInt]
+  | bzero h cm =>
+    obtain ⟨i, a, ha, rfl⟩ := bufCmd_msg hp hm
+    simp [grammarOk, ai_isInt, complTail_complArg]
+  | bclose h cm =>
+    obtain ⟨i, a, ha, rfl⟩ := bufCmd_msg hp hm
+    simp [grammarOk, ai_isInt, complTail_complArg]
+  | bfill h start frames vals =>
+    simp only [Op.wf] at hw
+    obtain ⟨i, a, ha, rfl⟩ := bufCmd_msg hp hm
+    cases vals with
+    | nil => simp at hw
+    | cons v r =>
+      simp only [Bool.and_eq_true] at hw
+      obtain ⟨x, r', h1, h2, rfl⟩ := ctlInputs_cons ha
+      have := rep3_of_vrep3 (c := c) (fun v a hv h => atomArg_intLike hv h)
+        (fun v a hv h => atomArg_intLike hv h) (fun v a hv h => atomArg_numLike hv h) r r' hw.2 h2
+      simp [grammarOk, rep3, ai_isInt, atomArg_numLike hw.1 h1, this]
+  | bset h args =>
+    simp only [Op.wf] at hw
+    obtain ⟨i, a, ha, rfl⟩ := bufCmd_msg hp hm
+    have := rep2_of_vrep2 (c := c) (fun v a hv h => atomArg_intLike hv h)
+      (fun v a hv h => atomArg_numLike hv h) args a hw ha
+    simp [grammarOk, ai_isInt, this]
+  | bsetn h args =>
+    simp only [Op.wf] at hw
+    obtain ⟨i, a, ha, rfl⟩ := bufCmd_msg hp hm
+    have := setnArgs_ok c (Val.isIntLike c) Arg.isInt (fun v a hv h => atomArg_intLike hv h) args a hw ha
+    simp [grammarOk, ai_isInt, this]
+  | bquery h =>
+    obtain ⟨i, a, ha, rfl⟩ := bufCmd_msg hp hm
+    simp [grammarOk, rep1, ai_isInt]
+  | bget h idx =>
+    simp only [Op.wf] at hw
+    obtain ⟨i, a, ha, rfl⟩ := bufCmd_msg hp hm
+    simp [grammarOk, rep1, ai_isInt, atomArg_intLike hw ha]
+  | bgetn h idx count =>
+    simp only [Op.wf, Bool.and_eq_true] at hw
+    obtain ⟨i, a, ha, rfl⟩ := bufCmd_msg hp hm
+    simp only [bind, Option.bind] at ha
+    cases hx : atomArg c idx with
+    | none => simp [hx] at ha
+    | some x =>
+      cases hy : atomArg c count with
+      | none => simp [hx, hy] at ha
+      | some y =>
+        simp only [hx, hy, pure, Option.some.injEq] at ha; subst ha
+        simp [grammarOk, rep2, ai_isInt, atomArg_intLike hw.1 hx, atomArg_intLike hw.2 hy]
+  | bgen h cmd args n w cl =>
+    simp only [Op.wf, Bool.and_eq_true, Bool.or_eq_true, beq_iff_eq] at hw
+    obtain ⟨i, a, ha, rfl⟩ := bufCmd_msg hp hm
+    have := rep1_of_all a (ctlInputs_nums args a hw.2 ha).2
+    rcases hw.1 with rfl | rfl <;> simp [grammarOk, bGenOk, ai_isInt, this]
+  | bnorm h max wt =>
+    simp only [Op.wf] at hw
+    obtain ⟨i, a, ha, rfl⟩ := bufCmd_msg hp hm
+    cases wt <;> simp [grammarOk, bGenOk, ai_isInt, atomArg_numLike hw ha]
+  | bcopy h d dstStart start num =>
+    simp only [Op.wf, Bool.and_eq_true] at hw
+    obtain ⟨i, a, ha, rfl⟩ := bufCmd_msg hp hm
+    simp only [bind, Option.bind] at ha
+    cases hd : c.bufs[d]? with
+    | none => simp [hd] at ha
+    | some db =>
+      cases hdi : db.bufnum with
+      | none => simp [hd, hdi] at ha
+      | some di =>
+        cases hx : atomArg c dstStart with
+        | none => simp [hd, hdi, hx] at ha
+        | some x =>
+          cases hy : atomArg c start with
+          | none => simp [hd, hdi, hx, hy] at ha
+          | some y =>
+            cases hz : atomArg c num with
+            | none => simp [hd, hdi, hx, hy, hz] at ha
+            | some z =>
+              simp only [hd, hdi, hx, hy, hz, pure, Option.some.injEq] at ha; subst ha
+              simp [grammarOk, bGenOk, ai_isInt, atomArg_intLike hw.1.1 hx, atomArg_intLike hw.1.2 hy,
+                atomArg_intLike hw.2 hz]
+  | bsine k h lists n w cl =>
+    simp only [Op.wf, Bool.and_eq_true, decide_eq_true_eq] at hw
+    obtain ⟨⟨hlen, hk3⟩, hnum⟩ := hw
+    obtain ⟨i, ls, ha, rfl⟩ := bufCmd_msg hp hm
+    simp only [bind, Option.bind] at ha
+    cases hm' : lists.mapM (ctlInputs c) with
+    | none => simp [hm'] at ha
+    | some ls' =>
+      simp only [hm'] at ha
+      split at ha
+      · rename_i heq
+        simp only [pure, Option.some.injEq] at ha; subst ha
+        obtain ⟨hl, hn⟩ := mapM_ctlInputs_nums lists ls' hnum hm'
+        have hall : ∀ a ∈ lace ls', a.isNum = true := fun a ha => by
+          obtain ⟨l, hl', hal⟩ := mem_lace ha
+          exact hn l hl' a hal
+        have heq' : ∀ l ∈ ls', l.length = (ls'.head?.map List.length).getD 0 := fun l hl' => by
+          have := List.all_eq_true.mp heq l hl'
+          simpa using this
+        have hlace := length_lace heq'
+        rw [hl, hlen] at hlace
+        match k, hk3 with
+        | 0, _ => simp [grammarOk, bGenOk, ai_isInt, rep1_of_all _ hall]
+        | 1, _ => simp [grammarOk, bGenOk, ai_isInt, rep1_of_all _ hall]
+        | 2, _ =>
+          have := rep2_of_all_even _ hall (by rw [hlace]; simp)
+          simp [grammarOk, bGenOk, ai_isInt, this]
+        | 3, _ =>
+          have := rep3_of_all_mod3 _ hall (by rw [hlace]; simp)
+          simp [grammarOk, bGenOk, ai_isInt, this]
+      · simp at ha
+  | bind => simp [Core.stepCore] at hp
+  | endBind => simp [Core.stepCore] at hp
+  | raise => simp [Core.stepCore] at hp
+
 /-! ## `with server.bind():` -/
 
 /-- `with s.bind(): body` as a history -/
